@@ -318,10 +318,34 @@ Definition enforce_ok (p : project) : bool :=
   forallb (fun c => forallb (fun m => negb (is_nil (effective_security (p_config p) c m))) (c_methods c))
           (p_controllers p).
 
+(* ... and two operations with the same verb whose path templates differ only in their
+   parameter names (/{a} vs /{b}): kin-openapi treats them as one template *)
+Fixpoint erase_param_names (inside : bool) (p : str) : str :=
+  match p with
+  | [] => []
+  | c :: t =>
+      if beqb c "{"%byte then c :: erase_param_names true t
+      else if beqb c "}"%byte then c :: erase_param_names false t
+      else if inside then erase_param_names inside t
+      else c :: erase_param_names inside t
+  end.
+
+Fixpoint templates_distinct (d : list operation) : bool :=
+  match d with
+  | [] => true
+  | o :: t =>
+      negb (existsb (fun o' => str_eqb (o_verb o) (o_verb o') &&
+                               str_eqb (erase_param_names false (o_path o)) (erase_param_names false (o_path o')) &&
+                               negb (str_eqb (o_path o) (o_path o'))) t)
+      && templates_distinct t
+  end.
+
+Definition lib_ok (d : list operation) : bool := forallb path_ok d && templates_distinct d.
+
 Definition spec_ops (p : project) : option (list operation) :=
   if negb (enforce_ok p) then None else
   match spec_ops_unvalidated p with
-  | Some d => if forallb path_ok d then Some d else None
+  | Some d => if lib_ok d then Some d else None
   | None => None
   end.
 
